@@ -100,7 +100,14 @@ def judge(cid, src, inputs, mode, feats, meta):
         finally:
           arm(False)
         if o['kind'] in ('timeout', 'overflow') or c['kind'] == 'timeout':
+          del mon.suspects[:]
           continue
+        if mon.suspects:
+          # an unbound name inside a composite state symbol is only legitimate when the program itself reads an
+          # unbound variable there (both runs then end in a NameError)
+          if not (o['kind'] == 'exc' and o.get('value') == 'NameError'):
+            detail = 'input %s: %s' % (a, mon.suspects[0])
+          del mon.suspects[:]
         bad = diff.compare(o, c)
         if bad and not mon.violations:
           if 'PoisonRead' in bad or 'PoisonRead' in str(c.get('exc_text', '')) or c.get('value') == 'PoisonRead':
